@@ -71,6 +71,13 @@ CHECKS = {
         'paths, accessors, children, child(i) and entry(i) for all i in [-n-1, n], entries, one_level) and compose/transform/broadcast results (full node arrays) with the implementation.',
    note=TB + 'The treespec algorithms are modelled at tree level (stree); the array layer is tied in by decode/encode theorems and by comparing full __getstate__ arrays, not by a refinement proof of each C++ index walk. treespec_* constructors and repr text are compared only through the harness.',
    design='§7 C08'),
+ 'C11': dict(
+   technique='Coq proof (per-node conditions established by induction over flatten; load = inverse of dump under those conditions) + extracted-model correspondence with registry changes between dump and load',
+   text='Theorems: for every treespec flatten produces, loading its pickled state under the same registry returns the identical treespec (all node fields incl. path entries, registration, counters and original keys; none_is_leaf; namespace); '
+        'a custom type not registered in the recorded namespace nor globally makes loading raise. The run dumps with protocols 2..HIGHEST, copy and deepcopy and loads under the same, a missing, a re-made or a moved registration in the same process (1500 cases) and in a freshly spawned interpreter, '
+        'comparing the loaded node array, == with the original and with a fresh flatten, and the unflattened tree with the model; the oracle checks equality, hash, repr, paths, accessors, entries, children, namespace and exact unflatten for the same-registry case.',
+   note=TB + 'The byte-level pickle encoding is Python\'s and is not modelled. Known finding K2: protocols 0 and 1 raise TypeError in dumps (pybind11), although the property quantifies over all protocols.',
+   design='§7 C11'),
  'C12': dict(
    technique='Coq proof (invariant by induction over operation histories; failed step = identity) + exhaustive-history correspondence in forked processes',
    text='Theorems: a call that raises for any reason leaves the registry exactly as it was; after ANY history the engine registry and the Python registry agree, no (type, namespace) is registered twice and no built-in is registered; an operation in one namespace never changes what is registered in another; '
